@@ -10,4 +10,5 @@ Separate Extraction
   Analyzer.faithful Analyzer.repaired
   SemDecide.prog_reach SemDecide.prog_can_fall_off
   AnalyzerG.analyzeG Analyzer.any_stops
+  Oracle.sem_fallthrough_cases Syntax.no_fn_stmtb Analyzer.current
   Oracle.c10_violations Oracle.c11_getter_violation Oracle.c11_case_violations.
